@@ -96,6 +96,7 @@ def run(ctx):
                 raise MachineryError(f'WorkerPool N={N} P={P}:\n' + (res.error_trace or res.stdout[-2000:]))
     if ctx.only in (None, 's2c'):
         jobs, meta = [], []
+        keep_alive = []
         for N, P in combos:
             orders = feasible_orders(ctx, N, P)
             s = None
@@ -110,6 +111,19 @@ def run(ctx):
                     jobs.append({'job': {'scn': s, 'scheme': scheme, 'plan': str(pp), 'mode': mode},
                                  'env': {'PYTHONHASHSEED': '0'}})
                     meta.append((id(s), mode, ('order', o)))
+            if N >= 3:
+                # the same cell identifier in the first and in the last chunk (different expression): whichever record
+                # the output keeps for it, it must not depend on which worker finished last
+                sd = copy.deepcopy(s)
+                sd['cells'][-1] = sd['cells'][0]
+                keep_alive.append(sd)
+                for o in orders:
+                    plan = pooltrace.order_plan(sd, list(o))
+                    pp = ctx.scratch / f'plan_{len(jobs)}.json'
+                    json.dump(plan, open(pp, 'w'))
+                    jobs.append({'job': {'scn': sd, 'scheme': scheme, 'plan': str(pp), 'mode': 'cli'},
+                                 'env': {'PYTHONHASHSEED': '0'}})
+                    meta.append((id(sd), 'cli', ('order_repeated_id', o)))
             for hs in (['1', '7'] if quick else ['1', '2', '3', '11', 'random']):
                 jobs.append({'job': {'scn': s, 'scheme': scheme, 'plan': None, 'mode': 'cli'},
                              'env': {'PYTHONHASHSEED': hs}})
@@ -130,7 +144,7 @@ def run(ctx):
         for j, o, (sid, mode, what) in zip(jobs, outs, meta):
             s = j['job']['scn']
             ctx.count({'s': s, 'mode': mode, 'what': what},
-                      nontrivial=not (what[0] == 'order' and list(what[1]) == sorted(what[1])))
+                      nontrivial=not (what[0].startswith('order') and list(what[1]) == sorted(what[1])))
             if 'GateTimeout' in json.dumps(o.get('traces', {})):
                 raise MachineryError(f'gate timeout while forcing {what} ({mode})')
             if not o['ok'] or not o.get('has_results'):
@@ -146,7 +160,7 @@ def run(ctx):
                           'levels': s['tree']['hier'], 'what': what, 'mode': mode, 'scn': s})
             if mode == 'cli' and c.get('markers') != o.get('markers'):
                 ctx.report(f'markers-differ:{what[0]}', f'marker_genes differ under {what}', {'scn': s})
-            if mode == 'cli':
+            if mode == 'cli' and what[0] != 'order_repeated_id':
                 ptraces.append(pooltrace.pool_trace(s, o))
                 powners.append((s, what))
         rej = 0
